@@ -112,7 +112,7 @@ Definition ok_node (o : op) (args : list term) : bool :=
   | OPlus | OTimes => negb (Nat.eqb (List.length args) 0)
   | OMinus | OLe | OLt | ODiv => Nat.eqb (List.length args) 2
   | OToReal => Nat.eqb (List.length args) 1
-  (* Pow: the exponent is a non-negative integer constant (the only exponents Sem.vpow defines) *)
+  (* Pow: the exponent is an integer constant (of sort Int, or an integral Real constant) *)
   (* stage 3: bit-vector operators *)
   | OBV k w =>
       (0 <? w)%Z &&
@@ -134,8 +134,8 @@ Definition ok_node (o : op) (args : list term) : bool :=
   | OStore => Nat.eqb (List.length args) 3
   | OArrayValue it => match args with d :: rest => arr_node_ok it d rest | [] => false end
   | OPow => match args with
-            | [_; T (OIntC y) []] => (0 <=? y)%Z
-            | [_; T (ORealC n d) []] => (0 <=? n)%Z && (d =? 1)%Z
+            | [_; T (OIntC y) []] => true
+            | [_; T (ORealC n d) []] => (d =? 1)%Z
             | _ => false
             end
   end.
@@ -530,6 +530,11 @@ Proof.
   destruct (Req_EM_T (INR (Z.to_nat n)) (IZR n)) as [_|H]; auto.
   exfalso. apply H. rewrite INR_IZR_INZ. f_equal. now apply Z2Nat.id.
 Qed.
+Lemma nat_of_real_neg n : (n < 0)%Z -> nat_of_real (IZR n) = None.
+Proof.
+  intros Hn. unfold nat_of_real. destruct (Req_EM_T _ (IZR n)) as [E|]; auto. exfalso.
+  pose proof (pos_INR (Z.to_nat (up (IZR n) - 1))) as P. rewrite E in P. apply le_IZR in P. lia.
+Qed.
 Lemma pow_IZR_nat z n : (0 <= n)%Z -> IZR (z ^ n) = (IZR z ^ Z.to_nat n)%R.
 Proof. intros Hn. rewrite pow_IZR. f_equal. f_equal. now rewrite Z2Nat.id. Qed.
 Lemma Rdiv_pow a b k : b <> 0%R -> ((a / b) ^ k = a ^ k / b ^ k)%R.
@@ -880,14 +885,17 @@ Proof.
     pose proof (Forall_inv IH I ta (Forall_inv Hargs) Ha Hwf) as Hva. cbn [map op_sem].
     destruct e as [oe le]. destruct oe; try discriminate Hn; destruct le; try discriminate Hn.
     + (* Real exponent n / 1 *)
-      apply andb_true_iff in Hn. destruct Hn as [Hn0 Hd1]. apply Z.leb_le in Hn0. apply Z.eqb_eq in Hd1. subst den.
+      apply Z.eqb_eq in Hn. subst den.
       cbn in He. inversion He; subst te. cbn in Hr. destruct (ty_eqb ta TReal) eqn:Et; [|discriminate].
       apply ty_eqb_eq in Et. subst ta. cbn in Hr. inversion Hr; subst ty. destruct (eval I a); try contradiction. cbn.
-      replace (Q2R' num 1) with (IZR num) by (unfold Q2R'; field). rewrite (nat_of_real_IZR _ Hn0). exact Logic.I.
+      replace (Q2R' num 1) with (IZR num) by (unfold Q2R'; field).
+      destruct (Z.le_gt_cases 0 num) as [Hn0|Hn0].
+      * rewrite (nat_of_real_IZR _ Hn0). exact Logic.I.
+      * rewrite (nat_of_real_neg num) by lia. rewrite <- opp_IZR. rewrite (nat_of_real_IZR (- num)) by lia. exact Logic.I.
     + (* Int exponent *)
-      apply Z.leb_le in Hn. cbn in He. inversion He; subst te. cbn in Hr. destruct (ty_eqb ta TInt) eqn:Et; [|discriminate].
+      cbn in He. inversion He; subst te. cbn in Hr. destruct (ty_eqb ta TInt) eqn:Et; [|discriminate].
       apply ty_eqb_eq in Et. subst ta. cbn in Hr. inversion Hr; subst ty. destruct (eval I a); try contradiction. cbn.
-      rewrite (proj2 (Z.leb_le 0 z) Hn). exact Logic.I.
+      destruct (0 <=? z)%Z; exact Logic.I.
   - (* bv2nat *)
     rewrite eval_plain by reflexivity. destruct args as [|a [|? ?]]; try discriminate.
     inversion F2 as [|? ta ? ? Ha F2']; subst. inversion F2'; subst. cbn in Hr. destruct ta as [| | | |wa| | |]; try discriminate.
@@ -2340,10 +2348,10 @@ Section Rules2f.
 Variable I : interp.
 Hypothesis Hwf : wfi I.
 
-(* shape of a Pow node of the fragment: same sort on both sides, exponent a non-negative integer *)
+(* shape of a Pow node of the fragment: same sort on both sides, exponent an integer constant *)
 Lemma pow_shape a e ty : okt (T OPow [a; e]) = true -> tc (T OPow [a; e]) = Some ty ->
   ty = TReal /\
-  ((nterm TInt a /\ exists y, e = TIntC y /\ (0 <= y)%Z) \/ (nterm TReal a /\ exists n, e = TRealC n 1 /\ (0 <= n)%Z)).
+  ((nterm TInt a /\ exists y, e = TIntC y) \/ (nterm TReal a /\ exists n, e = TRealC n 1)).
 Proof.
   intros Hok Htc. pose proof (okt_args _ _ Hok) as F. pose proof (okt_node _ _ Hok) as Hn.
   destruct (tc_inv _ _ _ Htc) as (tys & Ht & Hr). pose proof (tcs_Forall2 _ _ Ht) as F2.
@@ -2352,9 +2360,31 @@ Proof.
   cbn in Hr. destruct (ty_eqb ta te) eqn:Et; [|discriminate]. apply ty_eqb_eq in Et. subst te. cbn in Hr.
   assert (ty = TReal) by (destruct ta; try discriminate; inversion Hr; reflexivity). subst ty. split; [reflexivity|].
   cbn in Hn. destruct e as [oe le]. destruct oe; try discriminate Hn; destruct le; try discriminate Hn.
-  - apply andb_true_iff in Hn. destruct Hn as [Hn0 Hn1]. apply Z.leb_le in Hn0. apply Z.eqb_eq in Hn1. subst den.
-    cbn in He. inversion He; subst. right. split; [split; auto|]. exists num. split; [reflexivity | exact Hn0].
-  - apply Z.leb_le in Hn. cbn in He. inversion He; subst. left. split; [split; auto|]. exists z. split; [reflexivity | exact Hn].
+  - apply Z.eqb_eq in Hn. subst den.
+    cbn in He. inversion He; subst. right. split; [split; auto|]. exists num. reflexivity.
+  - cbn in He. inversion He; subst. left. split; [split; auto|]. exists z. reflexivity.
+Qed.
+
+(* Fraction ** integer *)
+Lemma fr_pow_int_sound n d p f : d <> 0%Z -> fr_pow_int (n, d) p = Some f ->
+  snd f <> 0%Z /\
+  q2r f = (if (0 <=? p)%Z then Q2R' n d ^ Z.to_nat p else / (Q2R' n d ^ Z.to_nat (- p)))%R /\
+  ((p < 0)%Z -> n <> 0%Z).
+Proof.
+  intros Hd E. unfold fr_pow_int in E. destruct (Z.leb_spec 0 p) as [Hp|Hp].
+  - inversion E; subst f. cbn [snd]. split; [apply Z.pow_nonzero; auto|]. split; [|lia].
+    unfold q2r, Q2R'. cbn [fst snd]. rewrite !pow_IZR_nat by exact Hp. symmetry. apply Rdiv_pow. now apply not_0_IZR.
+  - assert (Hk : (0 <= - p)%Z) by lia.
+    assert (Hinv : forall a b : Z, a <> 0%Z -> b <> 0%Z -> (IZR a / IZR b = IZR n / IZR d)%R ->
+               (IZR (b ^ - p) / IZR (a ^ - p) = / ((IZR n / IZR d) ^ Z.to_nat (- p)))%R).
+    { intros a0 b0 Ha0 Hb0 Eab. rewrite !pow_IZR_nat by exact Hk. rewrite <- Eab. rewrite Rdiv_pow by (now apply not_0_IZR).
+      field. split; apply pow_nonzero; now apply not_0_IZR. }
+    destruct (Z.ltb_spec 0 n) as [Hn|Hn].
+    + inversion E; subst f. cbn [snd]. split; [apply Z.pow_nonzero; lia|]. split; [|lia].
+      unfold q2r, Q2R'. cbn [fst snd]. apply Hinv; auto; lia.
+    + destruct (Z.eqb_spec n 0) as [->|Hn0]; [discriminate|]. inversion E; subst f. cbn [snd].
+      split; [apply Z.pow_nonzero; lia|]. split; [|lia].
+      unfold q2r, Q2R'. cbn [fst snd]. apply Hinv; try lia. rewrite !opp_IZR. field. repeat split; try (apply not_0_IZR; lia).
 Qed.
 
 Lemma r_pow_sound a e ty r : okt (T OPow [a; e]) = true -> tc (T OPow [a; e]) = Some ty ->
@@ -2363,21 +2393,29 @@ Proof.
   intros Hok Htc E. destruct (pow_shape a e ty Hok Htc) as [-> Hsh].
   assert (Hnode : res_ok I (T OPow [a; e]) TReal (eval I (T OPow [a; e]))) by (repeat split; auto).
   unfold r_pow in E.
-  destruct Hsh as [[Na (y & -> & Hy)]|[Na (m & -> & Hm)]].
+  assert (Hres : forall f v, snd f <> 0%Z -> eval I (T OPow [a; e]) = VReal v -> q2r f = v ->
+             res_ok I (mk_real f) TReal (eval I (T OPow [a; e]))).
+  { intros f v D Ev Eq. destruct (nterm_mk_real I TReal f eq_refl D) as [[O Tc] R]. repeat split; auto.
+    pose proof (okt_sound _ I TReal O Tc Hwf) as Hty. rewrite Ev.
+    destruct (eval I (mk_real f)) eqn:Em; try contradiction. unfold rv in R. rewrite Em in R. cbn in R. f_equal. now rewrite R. }
+  destruct Hsh as [[Na (y & ->)]|[Na (m & ->)]].
   - (* Int *)
     destruct (is_constant a) eqn:Ca.
     + destruct (nterm_const_shape TInt a Na Ca (or_introl eq_refl)) as [[_ (z & ->)]|[? _]]; [|discriminate].
       cbn [num_value top TIntC constant_value] in E.
-      assert (Hc : negb (fst (z, 1%Z) =? 0)%Z || fr_leb (0%Z, 1%Z) (y, 1%Z) = true).
-      { apply orb_true_iff. right. unfold fr_leb. cbn. apply Z.leb_le. lia. }
-      rewrite Hc in E. cbn [fr_is_int snd fst] in E. cbn [Z.eqb] in E. unfold Simplifier.bind, fr_pow_int in E.
-      rewrite (proj2 (Z.leb_le 0 y) Hy) in E. inversion E; subst.
-      assert (D : snd ((z ^ y)%Z, (1 ^ y)%Z) <> 0%Z) by (cbn; rewrite Z.pow_1_l; lia).
-      destruct (nterm_mk_real I TReal _ eq_refl D) as [N R]. destruct N as [O Tc]. repeat split; auto.
-      pose proof (okt_sound _ I TReal O Tc Hwf) as Hty.
-      destruct (eval I (mk_real ((z ^ y)%Z, (1 ^ y)%Z))) eqn:Ev; try contradiction. unfold rv in R. rewrite Ev in R. cbn in R.
-      rewrite eval_plain by reflexivity. cbn. rewrite (proj2 (Z.leb_le 0 y) Hy). f_equal. rewrite R.
-      unfold q2r, Q2R'. cbn [fst snd]. rewrite Z.pow_1_l by exact Hy. field.
+      destruct (negb (fst (z, 1%Z) =? 0)%Z || fr_leb (0%Z, 1%Z) (y, 1%Z)) eqn:Hc.
+      * cbn [fr_is_int snd fst] in E. cbn [Z.eqb] in E. unfold Simplifier.bind in E.
+        destruct (fr_pow_int (z, 1%Z) y) as [f|] eqn:Ef; [|discriminate]. inversion E; subst r.
+        destruct (fr_pow_int_sound z 1 y f ltac:(lia) Ef) as (D & Q & Hz).
+        refine (Hres f _ D _ Q).
+        rewrite eval_plain by reflexivity. cbn. replace (Q2R' z 1) with (IZR z) by (unfold Q2R'; field).
+        destruct (Z.leb_spec 0 y) as [Hy|Hy].
+        -- f_equal. now apply pow_IZR_nat.
+        -- f_equal. unfold rpow_neg. destruct (Req_EM_T (IZR z) 0) as [E0|]; [|reflexivity].
+           exfalso. apply eq_IZR in E0. exact (Hz Hy E0).
+      * exfalso. apply orb_false_iff in Hc. destruct Hc as [Hz Hy]. apply negb_false_iff in Hz. cbn [fst] in Hz. apply Z.eqb_eq in Hz. subst z.
+        unfold fr_leb in Hy. cbn [fst snd] in Hy. apply Z.leb_gt in Hy.
+        unfold mk_pow in E. cbn in E. rewrite (proj2 (Z.leb_gt 0 y)) in E by lia. discriminate E.
     + assert (Hnv : num_value a = None).
       { destruct a as [o l]. unfold num_value. cbn [top]. destruct o; auto; cbn in Ca; discriminate. }
       rewrite Hnv in E. unfold mk_pow in E. cbn [is_constant TIntC negb] in E. rewrite Ca in E. inversion E; subst. exact Hnode.
@@ -2385,18 +2423,22 @@ Proof.
     destruct (is_constant a) eqn:Ca.
     + destruct (nterm_const_shape TReal a Na Ca (or_intror eq_refl)) as [[? _]|[_ (n & d & -> & D)]]; [discriminate|].
       cbn [num_value top TRealC constant_value] in E.
-      assert (Hc : negb (fst (n, d) =? 0)%Z || fr_leb (0%Z, 1%Z) (m, 1%Z) = true).
-      { apply orb_true_iff. right. unfold fr_leb. cbn. apply Z.leb_le. lia. }
-      rewrite Hc in E. cbn [fr_is_int snd fst] in E. cbn [Z.eqb] in E. unfold Simplifier.bind, fr_pow_int in E.
-      rewrite (proj2 (Z.leb_le 0 m) Hm) in E. inversion E; subst.
-      assert (Dp : (0 < d ^ m)%Z) by (apply Z.pow_pos_nonneg; lia).
-      assert (D' : snd ((n ^ m)%Z, (d ^ m)%Z) <> 0%Z) by (cbn; lia).
-      destruct (nterm_mk_real I TReal _ eq_refl D') as [N R]. destruct N as [O Tc]. repeat split; auto.
-      pose proof (okt_sound _ I TReal O Tc Hwf) as Hty.
-      destruct (eval I (mk_real ((n ^ m)%Z, (d ^ m)%Z))) eqn:Ev; try contradiction. unfold rv in R. rewrite Ev in R. cbn in R.
-      rewrite eval_plain by reflexivity. cbn.
-      replace (Q2R' m 1) with (IZR m) by (unfold Q2R'; field). rewrite (nat_of_real_IZR _ Hm). f_equal. rewrite R.
-      unfold q2r, Q2R'. cbn [fst snd]. rewrite !pow_IZR_nat by exact Hm. symmetry. apply Rdiv_pow. apply not_0_IZR. lia.
+      destruct (negb (fst (n, d) =? 0)%Z || fr_leb (0%Z, 1%Z) (m, 1%Z)) eqn:Hc.
+      * cbn [fr_is_int snd fst] in E. cbn [Z.eqb] in E. unfold Simplifier.bind in E.
+        destruct (fr_pow_int (n, d) m) as [f|] eqn:Ef; [|discriminate]. inversion E; subst r.
+        destruct (fr_pow_int_sound n d m f ltac:(lia) Ef) as (D' & Q & Hz).
+        refine (Hres f _ D' _ Q).
+        rewrite eval_plain by reflexivity. cbn. replace (Q2R' m 1) with (IZR m) by (unfold Q2R'; field).
+        destruct (Z.leb_spec 0 m) as [Hm|Hm].
+        -- now rewrite (nat_of_real_IZR _ Hm).
+        -- rewrite (nat_of_real_neg m Hm). rewrite <- opp_IZR. rewrite (nat_of_real_IZR (- m)) by lia. f_equal.
+           unfold rpow_neg. destruct (Req_EM_T (Q2R' n d) 0) as [E0|]; [|reflexivity].
+           exfalso. apply (Hz Hm). unfold Q2R' in E0.
+           assert (Hd0 : IZR d <> 0%R) by (apply not_0_IZR; lia).
+           apply eq_IZR. apply (Rmult_eq_reg_r (/ IZR d)); [|now apply Rinv_neq_0_compat]. rewrite Rmult_0_l. exact E0.
+      * exfalso. apply orb_false_iff in Hc. destruct Hc as [Hz Hy]. apply negb_false_iff in Hz. cbn [fst] in Hz. apply Z.eqb_eq in Hz. subst n.
+        unfold fr_leb in Hy. cbn [fst snd] in Hy. apply Z.leb_gt in Hy.
+        unfold mk_pow in E. cbn in E. unfold fr_pow_int in E. rewrite (proj2 (Z.leb_gt 0 m)) in E by lia. cbn in E. discriminate E.
     + assert (Hnv : num_value a = None).
       { destruct a as [o l]. unfold num_value. cbn [top]. destruct o; auto; cbn in Ca; discriminate. }
       rewrite Hnv in E. unfold mk_pow in E. cbn [is_constant TRealC negb] in E. rewrite Ca in E. inversion E; subst. exact Hnode.
